@@ -112,6 +112,8 @@ def gen_attr(rng, fs, trait, extra_names=(), p_bare=0.35):
     # arguments
     n_args = rng.choice([npos, npos, npos, 0, 1, 2]) if rng.random() < 0.8 else rng.randrange(0, 3)
     exprs = idents + ["%s.clone()" % i for i in idents[:1]] + ["1 + 1", "\"s\"", "self", "*self", "f(a, b)", "_variant"]
+    # expressions that START with an identifier followed by `==` / `>=` / `=>`-free comparison: not `alias = value`
+    exprs += ["%s == %s" % (i, rng.choice(idents)) for i in idents[:2]] + ["%s >= 1" % i for i in idents[:1]] + ["x == y"]
     for k in range(n_args):
         al = None
         if rng.random() < 0.3:
@@ -125,7 +127,40 @@ def gen_attr(rng, fs, trait, extra_names=(), p_bare=0.35):
     return F.mk_attr(lit, args)
 
 
+def gen_wrap_field_enum(rng, idx):
+    """an enum whose wrapping enum-level format names a field itself, the variants' own formats naming the same
+    (generic) field under other traits: each (type, trait) pair needs its own bound"""
+    trait = rng.choice(F.DISPLAY_TRAITS)
+    params = rng.choice([["T"], ["T", "U"]])
+    named = rng.random() < 0.4
+    fld = "a" if named else "_0"
+    letters = ["", "?", "x", "X", "o", "b", "e", "E"]
+    lx = rng.choice(letters)
+    shared = rng.choice([F.mk_attr("{_variant} (raw: {%s%s})" % (fld, ":" + lx if lx else "")),
+                         F.mk_attr("{%s%s}={_variant}" % (fld, ":" + lx if lx else "")),
+                         F.mk_attr("{1%s}|{0}" % (":" + lx if lx else ""), [(None, "_variant"), (None, fld)]),
+                         F.mk_attr("{_variant}/{f%s}" % (":" + lx if lx else ""), [("f", fld)])])
+    vs = []
+    for k in range(rng.randrange(1, 4)):
+        p = rng.choice(params)
+        ty = rng.choice([F.t_ident(p), F.t_path([("Vec", ("angle", [F.t_ident(p)]))]), F.t_ident("i32"), F.gen_type(rng, params)])
+        fl = [{"name": fld if named else None, "ty": ty}]
+        if rng.random() < 0.3:
+            fl.append({"name": "b" if named else None, "ty": F.gen_type(rng, params)})
+        v = {"name": ["A", "Bee", "r#Cee"][k], "fields": {"kind": "named" if named else "unnamed", "list": fl}}
+        if rng.random() < 0.75:
+            ly = rng.choice(letters)
+            v["fmt"] = rng.choice([F.mk_attr("text: {%s%s}" % (fld, ":" + ly if ly else "")),
+                                   F.mk_attr("{%s}" % (":" + ly if ly else ""), [(None, fld)]),
+                                   F.mk_attr("code")])
+        vs.append(v)
+    return {"trait": trait, "params": params, "name": rng.choice(TYPE_NAMES), "container": {"fmt": shared}, "idx": idx,
+            "kind": "enum", "variants": vs}
+
+
 def gen_item(rng, idx, debug=False):
+    if not debug and rng.random() < 0.04:
+        return gen_wrap_field_enum(rng, idx)
     trait = "Debug" if debug else (rng.choice(F.DISPLAY_TRAITS) if rng.random() < 0.5 else "Display")
     params = rng.choice([[], ["T"], ["T"], ["T", "U"]])
     name = rng.choice(TYPE_NAMES)
@@ -197,8 +232,23 @@ def gen_item(rng, idx, debug=False):
                     F.mk_attr("{_variant }"), F.mk_attr("{_variant}{_variant}"), F.mk_attr("{}", [(None, "1")]),
                     F.mk_attr("{_variant}", [("_variant", "1")]), F.mk_attr("{0} {_variant}", [(None, "_variant")]),
                     F.mk_attr("{}", [(None, "_variant.len()")]), F.mk_attr("{_variant:}"), F.mk_attr("{_variant:.*}", [(None, "2")]),
+                    # wrapping AND naming a field itself, under a trait the variants' own formats need not use for it
+                    F.mk_attr("{_variant} (raw: {_0:?})"), F.mk_attr("{a:?}={_variant}"), F.mk_attr("{_variant}/{_0:x}"),
+                    F.mk_attr("{1:e}|{0}", [(None, "_variant"), (None, "_0")]), F.mk_attr("{_variant} {f:?}", [("f", "a")]),
+                    F.mk_attr("{_variant} (raw: {_0:?})"), F.mk_attr("{a:?}={_variant}"),
                 ])
             it["container"]["fmt"] = a
+    if params and rng.random() < 0.25:
+        # the type's own where clause (kept in front of everything the derive adds) and / or inline bounds
+        pool = ["T: Clone", "T: Copy + Send", "Vec<T>: Sized", "T: core::fmt::Debug", "Option<T>: PartialEq"]
+        if "U" in params:
+            pool += ["U: PartialEq", "U: core::fmt::Display, T: Sync", "(T, U): Clone"]
+        if rng.random() < 0.8:
+            it["where"] = []
+            for src in rng.sample(pool, rng.choice([1, 1, 2])):
+                it["where"] += [p.strip() for p in F.split_top(src)]
+        if rng.random() < 0.3:
+            it["inline"] = {rng.choice(params): rng.choice(["Clone", "core::fmt::Debug + Send", "'static"])}
     if rng.random() < 0.22:
         exoticize(rng, it)
     return it
@@ -330,7 +380,7 @@ def load_model_tables():
 def display_model_exprs(it, et, tids, preds):
     """one Gallina expression per item: the whole derive input goes through the model's front end
     (attribute selection by name, parsing classes, merging, rename_all, struct / enum / union)"""
-    return ["let it := %s in (d_expand_item unicode_cc to_case_marker %s it, item_frame it)" % (
+    return ["let it := %s in let r := d_expand_item unicode_cc to_case_marker %s it in (r, item_frame it, d_where_of it r)" % (
         F.ritem_coq(it, et, tids, preds), F.TR_COQ[it["trait"]])]
 
 
@@ -389,7 +439,10 @@ def real_display(resp):
         return ("bad", resp, None)
     items = resp["items"]
     where = [F.nows(w) for w in items[0]["where"]] if items and isinstance(items, list) and items[0].get("kind") == "impl" else None
-    fb = resp["fmt_bodies"]
+    fb = resp.get("fmt_bodies")
+    if fb is not None and not isinstance(fb, list):
+        # the harness could not read the expansion back as Rust (e.g. `write!(f, "..", a = = b)`)
+        return ("unparsable", fb, None)
     return ("ok", fb[0] if fb else None, where)
 
 
@@ -414,7 +467,7 @@ def compare_display(chk, items, tier):
     for it, resp, (start, n), (tids, preds) in zip(items, resps, index, ctxs):
         tids_rev = {v: k for k, v in tids.items()}
         preds_rev = {v: k for k, v in preds.items()}
-        t, fr = terms[start]
+        t, fr, wh = terms[start]
         m_frame = canon_model_frame(fr)
         m_err = None
         m_bodies, m_bounds = [], []
@@ -424,7 +477,8 @@ def compare_display(chk, items, tier):
             arms, allb = t[1]
             for (b, _) in arms:
                 m_bodies.append(F.canon_model_body(b, et) if b != "BEmpty" else None)
-            m_bounds += F.canon_model_bounds(allb, tids_rev, preds_rev)
+            # the whole where clause of the impl as the model assembles it: the type's own predicates, then the bounds
+            m_bounds += F.canon_model_bounds(wh, tids_rev, preds_rev)
         ms = t
         out.append({"item": it, "src": F.item_src(it), "resp": resp, "model_terms": ms, "m_err": m_err,
                     "m_bodies": m_bodies, "m_bounds": m_bounds, "m_frame": m_frame, "et": et})
@@ -444,7 +498,7 @@ def real_arm_bodies(it, body):
 # ------------------------------------------------------------------ Debug
 
 def debug_model_exprs(it, et, tids, preds):
-    return ["let it := %s in (g_expand_item unicode_cc it, item_frame it)" % F.ritem_coq(it, et, tids, preds)]
+    return ["let it := %s in let r := g_expand_item unicode_cc it in (r, item_frame it, g_where_of it r)" % F.ritem_coq(it, et, tids, preds)]
 
 
 def canon_real_debug(b):
@@ -535,7 +589,7 @@ def compare_debug(chk, items, tier):
         ctxs.append((tids, preds))
     terms = common.coq_eval(["Verif.Fmt.Front", "Verif.Gen.XidTable"], exprs, batch=200, tag="dbg")
     out = []
-    for it, resp, (t, fr), (tids, preds) in zip(items, resps, terms, ctxs):
+    for it, resp, (t, fr, wh), (tids, preds) in zip(items, resps, terms, ctxs):
         tids_rev = {v: k for k, v in tids.items()}
         preds_rev = {v: k for k, v in preds.items()}
         m_err, m_bodies, m_bounds = None, [], []
@@ -544,7 +598,7 @@ def compare_debug(chk, items, tier):
         else:
             for (b, bs) in t[1]:
                 m_bodies.append(canon_model_debug(b, et))
-                m_bounds += F.canon_model_bounds(bs, tids_rev, preds_rev)
+            m_bounds += F.canon_model_bounds(wh, tids_rev, preds_rev)
         out.append({"item": it, "src": F.item_src(it), "resp": resp, "m_err": m_err, "m_bodies": m_bodies,
                     "m_bounds": m_bounds, "m_frame": canon_model_frame(fr), "et": et})
     return out
@@ -585,6 +639,10 @@ def decision_tie(chk, n_display, n_debug, focus=None):
                 chk.violation("tie-fmt-model", {"item": r["src"], "derive": it["trait"], "real": str(real[1]), "model": str(r["m_err"])},
                               "Display-like model and code disagree on the diagnostic for: %s" % r["src"])
             continue
+        if real[0] == "unparsable":
+            chk.violation("expansion-not-parsable", {"item": r["src"], "derive": it["trait"], "detail": str(real[1])[:600]},
+                          "the expansion of this item is not parsable Rust: %s" % r["src"])
+            continue
         if real[0] != "ok":
             chk.violation("expander-internal-failure", {"item": r["src"], "derive": it["trait"], "real": str(real[1])},
                           "the real expander failed internally on: %s" % r["src"])
@@ -623,6 +681,10 @@ def decision_tie(chk, n_display, n_debug, focus=None):
             if r["m_err"] != real[1]:
                 chk.violation("tie-fmt-model", {"item": r["src"], "derive": "Debug", "real": str(real[1]), "model": str(r["m_err"])},
                               "Debug model and code disagree on the diagnostic for: %s" % r["src"])
+            continue
+        if real[0] == "unparsable":
+            chk.violation("expansion-not-parsable", {"item": r["src"], "derive": "Debug", "detail": str(real[1])[:600]},
+                          "the expansion of this item is not parsable Rust: %s" % r["src"])
             continue
         if real[0] != "ok":
             chk.violation("expander-internal-failure", {"item": r["src"], "derive": "Debug", "real": str(real[1])},
